@@ -246,6 +246,13 @@ def draw_cfg(rng, ws_density):
                                                        'mod_full_paren_if_bool', 'mod_full_brace_nl_block_rem_mlcond'), 2):
             o = registry.by_name()[n]
             d[n] = mod_value(rng, o)
+    r = rng.random()
+    if r < 0.12:        # the chain / multi-line-condition family (their pre-conditions interact)
+        d.update({'mod_full_brace_if_chain': rng.choice(['1', '2', '3']), 'mod_full_brace_nl_block_rem_mlcond': rng.choice(['true', 'false']),
+                  'mod_full_brace_if': rng.choice(['remove', 'add', 'ignore']), 'mod_full_brace_nl': rng.choice(['0', '2'])})
+    elif r < 0.24:      # loop rewriting together with brace options
+        d.update({'mod_infinite_loop': str(rng.randint(1, 5)), 'mod_full_brace_while': rng.choice(['ignore', 'add', 'remove']),
+                  'mod_full_brace_do': rng.choice(['ignore', 'add', 'remove'])})
     if ws_density:
         d.update(registry.random_cfg(rng, ('WS',), ws_density))
     family.apply_exclusions(d, _EX)
